@@ -463,6 +463,46 @@ mod std_part {
         out::count("file_length_change_requests", 27);
     }
 
+    /// The builder used step by step: the file's length changes BETWEEN the calls that configure
+    /// the builder and `build()`. The region is created by `build()`; what is safe is decided by
+    /// the file as it is then.
+    pub fn file_length_changes_between_builder_calls(stats: &mut Stats) {
+        use vm_memory::mmap::MmapRegionBuilder;
+        let rw = libc::PROT_READ | libc::PROT_WRITE;
+        // (length when the builder is configured, length at build(), offset, size)
+        for (len0, len1, off, size) in [(8192u64, 4096u64, 0u64, 8192usize), (4096, 8192, 0, 8192), (8192, 8192, 0, 8192), (16384, 8191, 4096, 4096), (0, 4096, 0, 4096), (4096, 0, 0, 1), (8192, 12288, 8192, 4096), (65536, 4096, 0, 4097)] {
+            for order in 0..3u8 {
+                let f = std::sync::Arc::new(temp_file(len0));
+                let fo = FileOffset::from_arc(f.clone(), off);
+                let b = match order {
+                    0 => MmapRegionBuilder::<()>::new(size).with_file_offset(fo).with_mmap_prot(rw).with_mmap_flags(libc::MAP_SHARED | libc::MAP_NORESERVE),
+                    1 => MmapRegionBuilder::<()>::new(size).with_mmap_prot(rw).with_mmap_flags(libc::MAP_SHARED | libc::MAP_NORESERVE).with_file_offset(fo),
+                    _ => MmapRegionBuilder::<()>::new_with_bitmap(size, ()).with_mmap_prot(rw).with_file_offset(fo).with_mmap_flags(libc::MAP_SHARED).with_hugetlbfs(false),
+                };
+                f.set_len(len1).expect("ftruncate");
+                let want_ok = off.checked_add(size as u64).map_or(false, |e| e <= len1);
+                match guarded(|| b.build()) {
+                    Err(p) => v(&format!("panic/builder-length-change/{}", panic_sig(&p)), J::s(p)),
+                    Ok(Ok(_reg)) => {
+                        stats.ok += 1;
+                        if !want_ok {
+                            v("builder-length-change/unsafe-request-accepted", jobj! {"len_when_configured" => len0, "len_at_build" => len1, "offset" => off, "size" => size, "order" => order});
+                        }
+                    }
+                    Ok(Err(e)) => {
+                        if want_ok {
+                            v(&format!("builder-length-change/safe-request-refused/{}", rerr(&e)), jobj! {"len_when_configured" => len0, "len_at_build" => len1, "offset" => off, "size" => size, "order" => order});
+                        } else {
+                            stats.refused += 1;
+                        }
+                    }
+                }
+                out::key(&format!("builder-length-change|{}|order{}|{}", if len1 < len0 { "shrunk" } else if len1 > len0 { "grown" } else { "same" }, order, want_ok), true);
+                out::eval(1);
+            }
+        }
+    }
+
     /// The backing file happens to be descriptor number 0 (stdin was closed before it was opened):
     /// the same requests get the same verdicts. Runs in a forked child.
     pub fn backing_file_is_descriptor_zero() {
@@ -931,6 +971,7 @@ pub fn run(args: &Args) {
             std_part::raw_ptr_grid(&mut stats);
             std_part::block_device_backing(&mut stats);
             std_part::file_length_changes(&mut stats);
+            std_part::file_length_changes_between_builder_calls(&mut stats);
             std_part::backing_file_is_descriptor_zero();
             std_part::guest_base_grid();
             std_part::random(args, &mut stats);
